@@ -119,6 +119,26 @@ def render_dynamic(root, sc, trace):
     return {1: "a", 2: "a", 3: "a", 4: "a"}
 
 
+def render_chain(root, sc, trace, phase):
+    """A chain t1 -> t2 -> ... -> tn in one package. Phase 1: every command succeeds (an earlier good build that leaves
+    outputs behind). Phase 2: the targets in sc["fail"] fail and every other command's text is changed, so that each of
+    them would have to be rebuilt -- over the stale outputs of its dependencies."""
+    os.makedirs(os.path.join(root, "a"), exist_ok=True)
+    with open(os.path.join(root, ".plzconfig"), "w") as f:
+        f.write("[build]\npath = /usr/local/bin:/usr/bin:/bin\n[cache]\ndir =\n")
+    rules = []
+    for t in range(1, sc["n"] + 1):
+        fails = phase == 2 and t in sc["fail"]
+        body = "exit 1" if fails else ": phase%d; cat $SRCS /dev/null > $OUT; echo t%d >> $OUT" % (phase, t)
+        cmd = ("printf '%%s\\n' '{\"ev\":\"Start\",\"t\":\"%d\"}' >> %s; (%s); rc=$?; printf '%%s\\n' \"{\\\"ev\\\":\\\"End\\\",\\\"t\\\":\\\"%d\\\",\\\"rc\\\":$rc}\" >> %s; exit $rc"
+               % (t, trace, body, t, trace))
+        srcs = '[":t%d"]' % (t + 1) if t < sc["n"] else "[]"
+        rules.append('genrule(\n    name = "t%d",\n    srcs = %s,\n    outs = ["t%d.out"],\n    cmd = %s,\n)\n' % (t, srcs, t, json.dumps(cmd)))
+    with open(os.path.join(root, "a", "BUILD"), "w") as f:
+        f.write("\n".join(rules))
+    return {t: "a" for t in range(1, sc["n"] + 1)}
+
+
 def render_subinclude(root, sc, trace):
     head, bbuild, _ = SUBINCLUDE_VARIANTS[sc["variant"]]
     os.makedirs(os.path.join(root, "a"), exist_ok=True)
@@ -142,7 +162,17 @@ def run_scenario(ctx, idx, sc, seed, hang_timeout=40):
     root = os.path.join(base, "repo")
     trace = os.path.join(base, "trace.ndjson")
     os.makedirs(base, exist_ok=True)
-    if sc.get("variant", "").startswith("dynamic"):
+    if sc.get("variant") == "stale-chain":
+        # an earlier good build, then a failure at the bottom of the chain with everything above it needing a rebuild
+        pkg = render_chain(root, sc, trace, 1)
+        os.makedirs(base + "/home", exist_ok=True)
+        p0 = subprocess.run([vlib.build_plz(), "-p", "-v", "1", "build", "//a:t1"], cwd=root, stdout=subprocess.PIPE, stderr=subprocess.STDOUT,
+                            env={"HOME": base + "/home", "PATH": "/usr/local/bin:/usr/bin:/bin"}, timeout=120, text=True, errors="replace")
+        if p0.returncode != 0:
+            raise vlib.Infra("the good build of a stale-chain scenario failed:\n" + p0.stdout[-1500:])
+        os.remove(trace)
+        pkg = render_chain(root, sc, trace, 2)
+    elif sc.get("variant", "").startswith("dynamic"):
         pkg = render_dynamic(root, sc, trace)
     else:
         pkg = render_subinclude(root, sc, trace) if sc.get("variant") else render(root, sc, trace, rng)
@@ -383,6 +413,12 @@ def common(ctx, prop):
         ctx.extra["scenarios_enumerated_by_tlc"] = len(gen)
         cases = pick(ctx, gen, 160, 32) if ctx.quick else pick(ctx, gen, 3000, 600)
         cases += extra_scenarios(ctx, 24 if ctx.quick else 200)
+        # a failure at the bottom of a chain after an earlier good build: nothing above it may run over the stale outputs
+        for n in ((3, 4) if ctx.quick else (3, 4, 5)):
+            for kg in (False, True):
+                for thr in (1, 4):
+                    cases.append(dict(n=n, deps=[[t + 1] for t in range(1, n)] + [[]], req=[1], fail=[n], keepGoing=kg, expectOK=False,
+                                      variant="stale-chain", threads=thr))
         # dependencies discovered while the build runs (post-build functions calling add_dep), two levels deep
         for thr in ((2, 4, 16) if ctx.quick else (1, 2, 3, 4, 8, 16)):
             for kg in (False, True):
